@@ -13,8 +13,61 @@ import (
 	"os"
 	"sort"
 	"strings"
+	"sync/atomic"
 	"time"
 )
+
+// ---- watchdog: a call into the implementation that does not return is a
+// violation of "never loops forever" (C04) and must not hang the check.
+var (
+	wdInCall   int32
+	wdProgress int64
+	wdCase     atomic.Value // string: the case being executed
+	wdCtx      *Ctx
+	wdOut      string
+)
+
+func setCase(text string) { wdCase.Store(text) }
+
+func startWatchdog(limit int) {
+	go func() {
+		last, stale := int64(-1), 0
+		for {
+			time.Sleep(time.Second)
+			p := atomic.LoadInt64(&wdProgress)
+			if atomic.LoadInt32(&wdInCall) == 1 && p == last {
+				stale++
+			} else {
+				stale = 0
+				last = p
+			}
+			if stale >= limit {
+				c := wdCtx
+				in, _ := wdCase.Load().(string)
+				c.violate(Violation{Suite: "watchdog", Kind: "property", Class: "hang",
+					Desc:  fmt.Sprintf("a call into the implementation did not return within %d s (work not bounded by the input length)", limit),
+					Input: in, Expected: "value or error", Actual: "no return"})
+				writeReport(c, wdOut)
+				os.Exit(1)
+			}
+		}
+	}()
+}
+
+func writeReport(c *Ctx, out string) {
+	for _, s := range c.rep.Suites {
+		s.seen = nil
+	}
+	data, _ := json.MarshalIndent(c.rep, "", " ")
+	if out != "" {
+		if err := os.WriteFile(out, data, 0o644); err != nil {
+			fmt.Fprintln(os.Stderr, err)
+			os.Exit(2)
+		}
+	} else {
+		os.Stdout.Write(data)
+	}
+}
 
 type Violation struct {
 	Property string `json:"property"`
@@ -167,20 +220,11 @@ func main() {
 		os.Exit(2)
 	}
 	t0 := time.Now()
+	wdCtx, wdOut = c, *out
+	startWatchdog(10)
 	fn(c)
 	c.rep.WallS = time.Since(t0).Seconds()
-	for _, s := range c.rep.Suites {
-		s.seen = nil
-	}
-	data, _ := json.MarshalIndent(c.rep, "", " ")
-	if *out != "" {
-		if err := os.WriteFile(*out, data, 0o644); err != nil {
-			fmt.Fprintln(os.Stderr, err)
-			os.Exit(2)
-		}
-	} else {
-		os.Stdout.Write(data)
-	}
+	writeReport(c, *out)
 	if len(c.rep.Violations) > 0 {
 		os.Exit(1)
 	}
@@ -201,6 +245,9 @@ func (r callRes) String() string {
 
 // guard runs f under recover
 func guard(f func() (string, error)) (res callRes) {
+	atomic.AddInt64(&wdProgress, 1)
+	atomic.StoreInt32(&wdInCall, 1)
+	defer atomic.StoreInt32(&wdInCall, 0)
 	defer func() {
 		if p := recover(); p != nil {
 			res = callRes{kind: "panic", val: fmt.Sprint(p)}
